@@ -186,6 +186,7 @@ type Thread struct {
 	id     int
 	e      *Exec
 	wake   chan struct{}
+	parked chan struct{}
 	op     *SyncOp
 	done   bool
 	vc     []int // happens-before clock over flyt's own synchronisation
@@ -409,7 +410,7 @@ func (e *Exec) modelNow(extra *Term) (map[string]uint64, bool) {
 // ---------------------------------------------------------------- threads and scheduling
 
 func (e *Exec) newThread(name string, start func(t *Thread)) *Thread {
-	t := &Thread{id: len(e.threads), e: e, wake: make(chan struct{}), start: start, name: name}
+	t := &Thread{id: len(e.threads), e: e, wake: make(chan struct{}), parked: make(chan struct{}), start: start, name: name}
 	e.threads = append(e.threads, t)
 	if len(e.threads) > 1 {
 		e.multi = true
@@ -441,7 +442,7 @@ func (e *Exec) newThread(name string, start func(t *Thread)) *Thread {
 					}
 				}
 			}
-			e.parked <- struct{}{}
+			t.parked <- struct{}{}
 		}()
 		if e.aborting {
 			panic(pathAbort{"killed", ""})
@@ -461,7 +462,7 @@ func (t *Thread) visible(op *SyncOp) {
 		return // single-threaded fast path: nothing to interleave with
 	}
 	t.op = op
-	e.parked <- struct{}{}
+	t.parked <- struct{}{}
 	<-t.wake
 	t.op = nil
 	if e.aborting {
@@ -474,7 +475,7 @@ func (e *Exec) resume(t *Thread) {
 	prev := e.cur
 	e.cur = t
 	t.wake <- struct{}{}
-	<-e.parked
+	<-t.parked
 	e.cur = prev
 }
 
